@@ -144,12 +144,15 @@ func (m *model) absorb(s Step, log []idpsrv.OpRec, credsUser string, credsOK boo
 			nu := &mUser{pw: -2, profile: profileOfUser(&u), hash: string(u.HashedPassword)}
 			old := m.users[name]
 			switch {
+			case s.Op == "put_user" && s.Name == name && s.Pw >= 0:
+				// documented: "If the PlaintextPassword field is present then it is hashed and
+				// stored" - the password this request carried IS the current password from now
+				// on, whatever the implementation chose to store
+				nu.pw = s.Pw
 			case len(u.HashedPassword) == 0:
 				nu.pw = -1
 			case old != nil && old.hash == nu.hash:
 				nu.pw = old.pw
-			case s.Op == "put_user" && s.Name == name && s.Pw >= 0:
-				nu.pw = s.Pw // fresh hash made from the password this request carried
 			}
 			for i, h := range idpsrv.LowCostHashes {
 				if nu.hash == h {
@@ -1221,6 +1224,63 @@ func enumEmpty(tier string, emit func(Case)) {
 	enumHistories(nil, n, emit)
 }
 
+// enumPasswordReplacement: a user is created with password a (every alphabet member incl. the
+// empty one, or none) and then PUT again with password b; afterwards a login / SSO is tried with
+// every password.  "Current password" is what the second PUT set (no password field keeps ...
+// whatever the model says; the model is the judge), so stale passwords must stop working.
+func enumPasswordReplacement(_ string, emit func(Case)) {
+	pws := []int{0, 1, 3, -1}
+	svc := idpsrv.Step{Op: "put_service", Name: "svc-a", Pw: -1, MD: 0}
+	for _, seeded := range []bool{true, false} {
+		for _, a := range pws {
+			for _, b := range pws {
+				for _, try := range []int{0, 1, 3} {
+					for _, op := range []string{"login", "sso"} {
+						c := Case{Seed: 11, Init: []idpsrv.Step{svc}}
+						if seeded {
+							c.Init = append([]idpsrv.Step{{Op: "seed_user", Name: "alice", Pw: a, Profile: 0}}, c.Init...)
+						} else {
+							c.Steps = append(c.Steps, idpsrv.Step{Op: "put_user", Name: "alice", Pw: a, Profile: 0})
+						}
+						c.Steps = append(c.Steps, idpsrv.Step{Op: "put_user", Name: "alice", Pw: b, Profile: 1})
+						st := idpsrv.Step{Op: op, Method: "POST", User: "alice", Pw: try, Issuer: 0, ACS: 0}
+						c.Steps = append(c.Steps, st, st)
+						c.Restarts = []int{len(c.Steps) - 1}
+						emit(c)
+					}
+				}
+			}
+		}
+	}
+}
+
+// enumFaultPositions: short canonical histories (login, SSO with credentials, SSO with cookie,
+// shortcut launch, management calls) with one store fault of each kind at every store-operation
+// position 0..11 - so that every single store access of these flows fails once.
+func enumFaultPositions(_ string, emit func(Case)) {
+	init := []idpsrv.Step{{Op: "seed_user", Name: "alice", Pw: 0, Profile: 0}, {Op: "put_service", Name: "svc-a", Pw: -1, MD: 0}, {Op: "put_shortcut", Name: "sc-a", Pw: -1, Issuer: 0, Relay: 1}}
+	sess0 := idpsrv.Cookie{Kind: "session", Idx: 0}
+	histories := [][]idpsrv.Step{
+		{{Op: "login", Method: "POST", User: "alice", Pw: 0}},
+		{{Op: "sso", Method: "POST", User: "alice", Pw: 0, Issuer: 0, ACS: 0}},
+		{{Op: "sso", Method: "GET", User: "alice", Pw: 0, Issuer: 0, ACS: 0}},
+		{{Op: "login", Method: "POST", User: "alice", Pw: 0}, {Op: "sso", Method: "GET", Pw: -1, Issuer: 0, ACS: 0, Cookie: sess0}},
+		{{Op: "login", Method: "POST", User: "alice", Pw: 0}, {Op: "launch", Name: "sc-a", Pw: -1, Cookie: sess0}},
+		{{Op: "launch", Name: "sc-a", User: "alice", Pw: 0}},
+		{{Op: "put_user", Name: "bob", Pw: 1, Profile: 1}, {Op: "login", Method: "POST", User: "bob", Pw: 1}},
+		{{Op: "put_service", Name: "svc-b", Pw: -1, MD: 1}, {Op: "sso", Method: "POST", User: "alice", Pw: 0, Issuer: 1, ACS: 0}},
+		{{Op: "login", Method: "POST", User: "alice", Pw: 0}, {Op: "del_session", Pw: -1, Session: sess0}, {Op: "sso", Method: "GET", Pw: -1, Issuer: 0, ACS: 0, Cookie: sess0}},
+	}
+	for _, h := range histories {
+		for at := 0; at < 12; at++ {
+			for _, kind := range []string{"notfound", "io"} {
+				emit(Case{Seed: 12, Init: init, Steps: h, Fault: []Fault{{At: at, Kind: kind}}})
+				emit(Case{Seed: 12, Init: init, Steps: h, Fault: []Fault{{At: at, Kind: kind}}, Restarts: []int{len(h)}})
+			}
+		}
+	}
+}
+
 var prop = &pbt.Prop[Case]{
 	ID: "C19",
 	Rule: "cases: a seeded store (0-3 users with low-cost bcrypt hashes or none, 0-3 services over 4 metadata variants = 2 entity IDs x 2 ACS sets, 0-2 shortcuts) plus a history of 1..25 (thorough 60) steps over " +
@@ -1234,6 +1294,8 @@ var prop = &pbt.Prop[Case]{
 	Enums: []pbt.Enum[Case]{
 		{Name: "histories-reduced-alphabet-populated-store", Each: enumPopulated},
 		{Name: "histories-reduced-alphabet-empty-store", Each: enumEmpty},
+		{Name: "password-replacement-grid", Each: enumPasswordReplacement},
+		{Name: "fault-at-every-store-operation-of-canonical-histories", Each: enumFaultPositions},
 	},
 	Assumptions: []string{
 		"requests are served by calling the server's http.Handler directly with a counting ResponseWriter (no network)",
